@@ -17,6 +17,10 @@ import time
 VERUS = os.environ.get("VERIF_VERUS", "verus")
 
 DEFINITE = [
+    ("unable to prove post-condition of closure", "closure_postcondition"),
+    ("bitvector assertion not satisfied", "assertion"),
+    ("decreases not satisfied", "termination"),
+    ("cannot show the atomic update", None),
     ("postcondition not satisfied", "postcondition"),
     ("precondition not satisfied", "precondition"),
     ("assertion failed", "assertion"),
